@@ -2,11 +2,12 @@
    write faults) is executed on the model at the current repair switches; after every step the observable
    projection of the state is compared with what the real code left on the in-memory file system. *)
 From Coq Require Import List Arith Bool.
-From Gopki.Model Require Import Dir Plan Run Ops Current.
+From Gopki.Model Require Import Bytes Dir Plan Run Ops Cli Current.
 From Gopki.Spec Require Import DirInv.
 Import ListNotations.
 
-Inductive hstep := U (o : op) | R (s : strat) (f : option (nat * outcome)).
+Inductive hstep := U (o : op) | R (s : strat) (f : option (nat * outcome))
+  | C (f : flags) (input : option bytes).   (* the command line: flags and what is typed at the prompt (None = end of input) *)
 
 (* result code, aliases written in order, per entity: alias and flags
    [has hash; has cert; has key; has request; cert matches key; cert chains to issuer's current cert; cert matches request;
@@ -41,12 +42,21 @@ Definition observe (prev : list ent) (d : dir) : list (nat * list bool) :=
 
 Definition res_code (r : result) : nat := match r with ROk => 1 | RErr => 2 | RPanic => 3 | RDied => 4 end.
 
+(* command-line outcomes: 5 nothing to do (all flags off), 6 directory refused, 7 planning failed, 8 aborted at the prompt, else the run's code *)
+Definition cli_code (r : cli_result) : nat :=
+  match r with CliNothingToDo => 5 | CliOpenError => 6 | CliPlanError => 7 | CliAborted => 8 | CliDone x => res_code x end.
+Fixpoint insert_nat (x : nat) (l : list nat) : list nat :=
+  match l with [] => [x] | y :: r => if Nat.leb x y then x :: l else y :: insert_nat x r end.
+Definition sort_nat (l : list nat) : list nat := fold_right insert_nat [] l.
+
 Fixpoint exec (d : dir) (ss : list hstep) : list obsT :=
   match ss with
   | [] => []
   | U o :: r => let d' := apply_op d o in (0, [], observe (d_ents d) d') :: exec d' r
   | R s f :: r => let '(res, d', w) := run cur_csr cur_nilcert d s f in
                   (res_code res, w, observe (d_ents d) d') :: exec d' r
+  | C f inp :: r => let '(res, d', w) := cli_sign cur_csr cur_nilcert d f inp in
+                    (cli_code res, sort_nat w, observe (d_ents d) d') :: exec d' r
   end.
 
 Fixpoint lb_eqb (a b : list bool) := match a, b with [], [] => true | x :: a', y :: b' => Bool.eqb x y && lb_eqb a' b' | _, _ => false end.
@@ -79,6 +89,8 @@ Fixpoint spec_trace (d : dir) (ss : list hstep) (i : nat) : list (nat * nat) :=
                       | _, _ => []
                       end)
                   ++ spec_trace d' r (S i)
+  | C f inp :: r => let '(_, d', _) := cli_sign cur_csr cur_nilcert d f inp in
+                    (if dir_inv d' then [] else [(i, 1)]) ++ spec_trace d' r (S i)
   end.
 
 (* ---- the property statements evaluated directly on what the implementation left behind (no model involved):
@@ -99,6 +111,13 @@ Definition is_default (s : strat) : bool := strat_eqb s default_strat.
 Definition rules_at (prev : option (hstep * obsT)) (st : hstep) (o : obsT) : list nat :=
   match st with
   | U _ => []
+  | C f inp =>
+    (* rule 6 (C10): the prompt was shown (some entity would be replaced) and the answer is not y: nothing may be written.
+       The harness reports code 8 when the tool printed its abort message; independent of that, with an answer other than y no
+       entity that already had a certificate may have been written *)
+    let '(res, w, es) := o in
+    let pes := match prev with Some (_, (_, _, p)) => p | None => [] end in
+    if negb (consent inp) && existsb (fun a => bit 1 (fl pes a)) w then [6] else []
   | R s f =>
     let '(res, w, es) := o in
     let pes := match prev with Some (_, (_, _, p)) => p | None => [] end in
